@@ -269,14 +269,37 @@ def run_python_plain(cfg, ops, chdir, per_step=None, end="close", sibling=None):
             from . import strategies
             sops = strategies.sibling_ops(cfg, ops, sibling)
             py_issue(w2, sibling["cfg"], sops[0], 1000)
+        sib_thread = None
+        if w2 is not None and (cfg["salt"] + cfg["start"]) % 3 == 0:
+            # the other channel is recorded by ANOTHER THREAD of the process at the same time (one thread per channel):
+            # its calls fall between any two interpreter steps of the primary writer's calls.  (The thread calls the writer
+            # directly: the fd-level silencing used elsewhere is process-wide and not for two threads at once.)
+            import threading
+
+            def _record_sibling():
+                for j_, sop in enumerate(sops[1:]):
+                    if sop is None:
+                        continue
+                    try:
+                        arr_ = rfmodel.call_array(sibling["cfg"], 1001 + j_, sop["len"])
+                        if sop["op"] == "w":
+                            w2.rf_write(arr_, sop["idx"])
+                        else:
+                            w2.rf_write_blocks(arr_, sop["g"], sop["d"])
+                    except Exception:
+                        pass
+            sib_thread = threading.Thread(target=_record_sibling)
+            sib_thread.start()
         for call, op in enumerate(ops):
             r = py_issue(w, cfg, op, call)
             g = py_getters(w)
             results.append({"status": r[0], "ret": r[1], "get": g})
             if per_step:
                 per_step(call, op, results[-1], w)
-            if w2 is not None and call + 1 < len(sops) and sops[call + 1] is not None:
+            if sib_thread is None and w2 is not None and call + 1 < len(sops) and sops[call + 1] is not None:
                 py_issue(w2, sibling["cfg"], sops[call + 1], 1001 + call)
+        if sib_thread is not None:
+            sib_thread.join(60)
     finally:
         with quiet_fds():
             if w2 is not None:
